@@ -23,5 +23,6 @@ class PVS:
         """Yield the disk file names."""
         for hdd_elem in self._xml.iterfind(".//Hdd"):
             system_name = hdd_elem.find("SystemName")
-            if system_name is not None:
+            # An empty SystemName means no image is attached to the device
+            if system_name is not None and system_name.text:
                 yield system_name.text
